@@ -17,8 +17,10 @@ use serde_json::{json, Value};
 use std::collections::{BTreeMap, BTreeSet};
 use std::time::Instant;
 
-pub const CLASSES: [&str; 23] = [
+pub const CLASSES: [&str; 25] = [
     "missing:enoent-at-realpath",
+    "missing:vanishes-after-realpath",
+    "main:second-main-in-included-file",
     "missing:absent-file",
     "unreadable:enoent-at-open",
     "unreadable:eacces-at-open",
@@ -139,6 +141,10 @@ fn plant(b: &Base, class: &'static str, rng: &mut Rng) -> Option<Planted> {
         "missing:enoent-at-realpath" => {
             case.plan.faults.push(Fault { call: "realpath".into(), errno: libc::ENOENT, occurrence: 1, suffix: target.clone() });
         }
+        "missing:vanishes-after-realpath" => {
+            // resolves, then is gone when it is opened (errno -2 = succeed, then unlink)
+            case.plan.faults.push(Fault { call: "realpath".into(), errno: -2, occurrence: 1, suffix: target.clone() });
+        }
         "missing:absent-file" => {
             let ghost = "ghost.circom".to_string();
             let pos = rng.usize(named_paths.len() + 1);
@@ -207,7 +213,17 @@ fn plant(b: &Base, class: &'static str, rng: &mut Rng) -> Option<Planted> {
         }
         "torn:unterminated-comment" => {
             let mut text = case.world.get_text(&target)?.to_string();
-            let tail = *rng.pick(&["/* never closed\n", "/* torn here", "/*\ntemplate Hidden() { signal input x; }\n", "/* **\n", "/*/"]);
+            let tail = *rng.pick(&[
+                "/* never closed\n",
+                "/* torn here",
+                "/*\ntemplate Hidden() { signal input x; }\n",
+                "/* **\n",
+                "/*/",
+                "/* ends in a star *",
+                "/**",
+                "/** doc\n *",
+                "/* a **",
+            ]);
             text.push_str(tail);
             case.world.put(&target, &text);
             detail = format!("{tail:?}");
@@ -412,6 +428,29 @@ fn plant(b: &Base, class: &'static str, rng: &mut Rng) -> Option<Planted> {
             }
             rerender = true;
         }
+        "main:second-main-in-included-file" => {
+            // a leftover main in a file that is only included
+            let included: Vec<usize> = (0..p.files.len()).filter(|fi| !p.named.contains(fi)).collect();
+            if included.is_empty() {
+                return None;
+            }
+            let t = all_templates.first()?.clone();
+            let args = (0..t.params.len()).map(|_| gen::Expr::Num("1".into())).collect::<Vec<_>>();
+            let inc = included[rng.usize(included.len())];
+            // the named target must (transitively) reach it: include it directly
+            let inc_path = project.files[inc].path.clone();
+            if !project.files[target_fi].includes.iter().any(|i| i.trim_start_matches("./") == inc_path) {
+                project.files[target_fi].includes.push(inc_path.clone());
+            }
+            for f in project.files.iter_mut() {
+                f.main = None;
+            }
+            project.files[target_fi].main = Some(MainDecl { public: vec![], template: t.name.clone(), args: args.clone() });
+            project.files[inc].main = Some(MainDecl { public: vec![], template: t.name.clone(), args });
+            where_ok.push(inc_path.clone());
+            detail = format!("mains in {} and (included only) {}", target, inc_path);
+            rerender = true;
+        }
         "main:two-main-components" => {
             if p.named.len() < 2 {
                 return None;
@@ -610,7 +649,10 @@ fn one(runner: &Runner, seed: u64, i: usize, per_project: usize, sweep_class: Op
             true
         } else {
             o.events.iter().any(|e| {
-                planted_faults.iter().any(|f| f.call == e.call && e.path.ends_with(&f.suffix) && e.result_num().map(|v| v < 0).unwrap_or(false))
+                planted_faults.iter().any(|f| {
+                    (f.call == e.call && e.path.ends_with(&f.suffix) && e.result_num().map(|v| v < 0).unwrap_or(false))
+                        || (f.errno == -2 && e.call == "vanish" && e.path.ends_with(&f.suffix))
+                })
             })
         };
         if o.events.iter().any(|e| (e.call == "create" || e.call == "write") && e.path.ends_with("out.sarif") && e.result_num().map(|v| v < 0).unwrap_or(false)) {
